@@ -1,6 +1,8 @@
 mod common;
 mod conv_common;
 mod conv_cie;
+mod pairs;
+mod c01;
 mod c02;
 mod c03;
 mod c05;
@@ -13,6 +15,7 @@ fn main() {
     let (prop, tier, seed, dir) = (a[1].as_str(), a[2].as_str(), a[3].parse::<u64>().unwrap_or(0), a[4].as_str());
     common::quiet_panics();
     match prop {
+        "C01" => c01::run(tier, seed, dir),
         "C02" => c02::run(tier, seed, dir),
         "C03" => c03::run(tier, seed, dir),
         "C05" => c05::run(tier, seed, dir),
